@@ -333,6 +333,21 @@ func (a *Analyzer) CheckRule(clause ast.Clause) error {
 				return fmt.Errorf("reducer applications %v not allowed in a let-transform %v", stmt.Fn, clause)
 			}
 		}
+		// Let-statements are evaluated in order: a statement can only use variables
+		// that the rule body binds or that an earlier statement defines.
+		letDefs := make(map[ast.Variable]bool)
+		for _, stmt := range clause.Transform.Statements {
+			uses := make(map[ast.Variable]bool)
+			ast.AddVars(stmt.Fn, uses)
+			for v := range uses {
+				if !letDefs[v] && !hasValue(boundVars, uf, v) {
+					return fmt.Errorf("in %v, variable %v in %v will not have a value yet; it must be bound by the rule body or defined by an earlier let-statement", clause, v, stmt.Fn)
+				}
+			}
+			if stmt.Var != nil {
+				letDefs[*stmt.Var] = true
+			}
+		}
 	}
 
 	// Check that rules only reference predicates that are defined.
